@@ -200,7 +200,8 @@ def link_harness(cdir, name, h):
     out = os.path.join(cdir, 'goto', name + '.g')
     if os.path.exists(out):
         return out
-    tmp = out + '.tmp%d' % os.getpid()
+    import uuid
+    tmp = out + '.tmp' + uuid.uuid4().hex
     sh(['goto-cc', h['goto'], KANI_LIB_C, '-o', tmp])
     sh(['goto-cc', tmp, '--function', h['mangled'], '-o', tmp])
     sh(['goto-instrument', '--add-library', '--no-malloc-may-fail', tmp, tmp])
